@@ -67,7 +67,19 @@ func boxFor(id uint64) *box {
 	return b
 }
 
+// valFor maps a token id to the value handed to cache.Cache: id 0 is the nil
+// interface (what a miss also yields), every other id one distinct pointer.
+func valFor(id uint64) any {
+	if id == 0 {
+		return nil
+	}
+	return boxFor(id)
+}
+
 func idOf(v any) uint64 {
+	if v == nil {
+		return 0
+	}
 	b, ok := v.(*box)
 	if !ok {
 		return noID
@@ -841,7 +853,7 @@ func execCache(op string, a []string) vlib.Res {
 		k, id := vlib.AtoU64(a[0]), vlib.AtoU64(a[1])
 		res, p := insertWithCap("cache", op, t, cRef, cPool, k, id, cCap,
 			func() []uint64 { return allSegSlots(inner) }, func() int { return segDataLen(inner, k) },
-			func() { cc.Add(k, boxFor(id)) })
+			func() { cc.Add(k, valFor(id)) })
 		cPend = p
 		return res
 	case "evicted":
@@ -890,12 +902,12 @@ func execCache(op string, a []string) vlib.Res {
 		var got bool
 		if op == "cas" {
 			nw := vlib.AtoU64(a[2])
-			got = cc.CompareAndSwap(k, boxFor(old), boxFor(nw))
+			got = cc.CompareAndSwap(k, valFor(old), valFor(nw))
 			if want {
 				cRef[k] = nw
 			}
 		} else {
-			got = cc.CompareAndDelete(k, boxFor(old))
+			got = cc.CompareAndDelete(k, valFor(old))
 			if want {
 				delete(cRef, k)
 				tags = clusterTags(tags, slots, k)
@@ -910,6 +922,12 @@ func execCache(op string, a []string) vlib.Res {
 		}
 		if present && cur != old && cur%3 == old%3 {
 			tags = addTag(addTag(tags, "ident"), "nt")
+		}
+		if old == 0 && !present {
+			tags = addTag(addTag(tags, "nil-absent"), "nt")
+		}
+		if k == 0 {
+			tags = addTag(tags, "zero")
 		}
 		return vlib.Res{Impl: vlib.B(got), Oracle: verdict(or, aud()), Tags: tagStr(tags)}
 	case "len":
@@ -966,6 +984,12 @@ func execLim(op string, a []string) vlib.Res {
 		lRef = map[uint64]bool{}
 		lPend = nil
 		return vlib.Res{Impl: "ok", Oracle: limAudit(op)}
+	}
+	if op == "churn" {
+		if !need(a, 3) {
+			return vlib.Res{Impl: "bad-op"}
+		}
+		return limChurn(vlib.Atoi(a[0]), vlib.Atoi(a[1]), vlib.AtoU64(a[2]))
 	}
 	if ls == nil {
 		return vlib.Res{Impl: "no-table"}
@@ -1039,6 +1063,65 @@ func execLim(op string, a []string) vlib.Res {
 		return vlib.Res{Impl: strconv.Itoa(got), Oracle: verdict(or, limAudit(op))}
 	}
 	return vlib.Res{Impl: "bad-op"}
+}
+
+// limChurn is self-contained (its own store, so a replay of the single op
+// re-runs the whole scenario): fill a store of maxSize entries to capacity,
+// then `fresh` inserts of never-seen keys, which is the only way to reach the
+// sampled victim selection evictOne uses above 1000 entries. Judged from the
+// property text alone: the key just written is still stored (present, and a
+// second Get hands back the SAME limiter instead of minting a new bucket),
+// and the store stays within max(maxSize, 1). Which other key goes is free.
+func limChurn(maxSize, fresh int, seed uint64) vlib.Res {
+	if maxSize > 1<<16 {
+		maxSize = 1 << 16
+	}
+	if fresh > 1<<18 {
+		fresh = 1 << 18
+	}
+	s := ratelimit.NewLimiterStore(maxSize, 10)
+	r := vlib.NewR(seed)
+	used := map[uint64]bool{}
+	bound := max(maxSize, 1)
+	or := ""
+	total := maxSize + fresh
+	for i := 0; i < total && or == ""; i++ {
+		var k uint64
+		switch {
+		case i == 0:
+			k = 0
+		case i%3 == 0:
+			k = uint64(i)
+		default:
+			k = r.U64()
+		}
+		for used[k] {
+			k = r.U64()
+		}
+		used[k] = true
+		l1 := s.Get(k)
+		switch {
+		case l1 == nil:
+			or = fail("lim/churn/wrong-result", "insert #%d: Get(%d) returned nil", i, k)
+		case !ratelimit.VerifLimiterHas(s, k):
+			or = fail("lim/churn/evicted-own-key", "insert #%d (Len()=%d max=%d): key=%d is not in the store right after Get created it", i, s.Len(), maxSize, k)
+		case s.Get(k) != l1:
+			or = fail("lim/churn/evicted-own-key", "insert #%d (Len()=%d max=%d): a second Get(%d) returns another limiter than the one just handed out", i, s.Len(), maxSize, k)
+		case s.Len() > bound:
+			or = fail("lim/churn/over-capacity", "insert #%d: Len()=%d max=%d", i, s.Len(), maxSize)
+		}
+	}
+	if or == "" {
+		// re-reads of stored keys must neither evict nor grow
+		n0 := s.Len()
+		for _, k := range ratelimit.VerifLimiterKeys(s) {
+			s.Get(k)
+		}
+		if s.Len() != n0 {
+			or = fail("lim/churn/miscounted", "re-reading the stored keys changed Len() from %d to %d", n0, s.Len())
+		}
+	}
+	return vlib.Res{Impl: fmt.Sprintf("ok len=%d", s.Len()), Oracle: verdict(or), Tags: "nt,churn"}
 }
 
 func main() { vlib.Main(&vlib.Driver{Facts: facts, Exec: exec, Gen: gen}) }
